@@ -64,6 +64,7 @@ FIXED = [
  "fixed: property=C13 766b4ac RESIZE_NEAREST_NEIGHBOR align_corners in front of a bypassed RESHAPE: kernel sized from the depth of the reshaped OFM tensor (same class as 92fd28e)",
  "fixed: property=C03 0eb36a3 MEAN in front of a bypassed RESHAPE: the int32 partial-sum tensors took the reshaped shape of the OFM tensor, the depthwise convolution described its IFM with it and read undefined bytes (same class as 92fd28e) (findings/FX-mean-behind-bypassed-reshape.C03.json)",
  "fixed: property=C12 c7adebd two CPU-resident memory only operators in a row (RESHAPE ; RESHAPE at the end of a network) were packed into one pass; the tensor between them got no live range and was published at arena offset 0 on top of a live tensor (findings/FX-two-cpu-reshapes-unallocated.C12.json)",
+ "fixed: property=C03 a42dec3 PRELU (general lowering to MIN/MUL/RELU/ADD or MUL/MAX) in front of a bypassed RESHAPE: new operations and intermediate tensors took the reshaped shape of the OFM tensor (same class as 92fd28e); reads of undefined bytes and of bytes written as another tensor (findings/FX-prelu-behind-bypassed-reshape.C03.json)",
 ]
 EXTRA = [
  dict(id="F07-pad-then-mean", property="C13", status="known",
